@@ -1037,6 +1037,38 @@ func (g GoVal) build() (v any, want *val.V, mustReject bool, spec bool) {
 			}
 		}
 		v = leaf.Node()
+	case "aliased":
+		// ONE buffer seen through several slices inside one value - the whole of it, a prefix, a shorter prefix, a
+		// window - as callers have them after paging or trimming: every slice is stored with ITS elements
+		buf := []int64{1, 2, 3, 4, 5}
+		sbuf := []string{"a", "b", "c"}
+		mk := func(xs []int64) val.V {
+			l := val.V{K: "list"}
+			for _, x := range xs {
+				l.L = append(l.L, val.Int(x))
+			}
+			return l
+		}
+		switch g.I % 4 {
+		case 0:
+			v = map[string]any{"all": buf, "head": buf[:2], "one": buf[:1]}
+			w := val.Map(val.E("all", mk(buf)), val.E("head", mk(buf[:2])), val.E("one", mk(buf[:1])))
+			want = &w
+		case 1:
+			v = [][]int64{buf[:1], buf[:3], buf, buf[1:3]}
+			w := val.List(mk(buf[:1]), mk(buf[:3]), mk(buf), mk(buf[1:3]))
+			want = &w
+		case 2:
+			v = []any{sbuf, sbuf[:1], map[string]any{"again": sbuf[:2]}}
+			w := val.List(val.List(val.Str("a"), val.Str("b"), val.Str("c")), val.List(val.Str("a")), val.Map(val.E("again", val.List(val.Str("a"), val.Str("b")))))
+			want = &w
+		default:
+			shared := map[string]any{"k": int64(1)}
+			v = []any{shared, shared, map[string]any{"m": shared}}
+			one := val.Map(val.E("k", val.Int(1)))
+			w := val.List(one, one, val.Map(val.E("m", one)))
+			want = &w
+		}
 	case "jsonNumber":
 		// a number of a JSON document decoded with UseNumber(): a string type whose text denotes a number. Kept as
 		// that text, or stored as the number the text denotes (an integer literal exactly; a decimal literal as the
@@ -1469,7 +1501,7 @@ func runVal(c *h.Ctx, vc ValCase) {
 
 var intEdges = []int64{0, 1, -1, 127, -128, 255, 32767, -32768, 65535, math.MaxInt32, math.MinInt32, math.MaxUint32, maxSafe - 1, maxSafe, maxSafe + 1, -maxSafe, -maxSafe - 1, math.MaxInt64, math.MinInt64, math.MaxInt64 - 1}
 var uintEdges = []uint64{0, 1, 255, 256, 65535, 65536, math.MaxUint32, maxSafe - 1, maxSafe, maxSafe + 1, math.MaxInt64, math.MaxInt64 + 1, math.MaxUint64 - 4, math.MaxUint64}
-var scalarTypes = []string{"int", "int8", "int16", "int32", "int64", "myInt", "uint", "uint8", "uint16", "uint32", "uint64", "uintptr", "myUint", "float64", "float32", "string", "myStr", "bool", "bytes", "nil", "struct", "chan", "func", "intkeymap", "nilptr", "loudInt", "loudStr", "loudSlice", "loudBool", "loudFloat", "jsonNumber", "duration", "nodeInt", "nodeUint", "nodeNested"}
+var scalarTypes = []string{"int", "int8", "int16", "int32", "int64", "myInt", "uint", "uint8", "uint16", "uint32", "uint64", "uintptr", "myUint", "float64", "float32", "string", "myStr", "bool", "bytes", "nil", "struct", "chan", "func", "intkeymap", "nilptr", "loudInt", "loudStr", "loudSlice", "loudBool", "loudFloat", "jsonNumber", "duration", "nodeInt", "nodeUint", "nodeNested", "aliased"}
 
 var numberTexts = []string{"0", "1", "-1", "-0", "9007199254740991", "9007199254740992", "-9007199254740992", "9223372036854775807", "9223372036854775808", "-9223372036854775808", "-9223372036854775809",
 	"18446744073709551615", "18446744073709551616", "12345678901234567891", "100000000000000000000000000000000000000", "1e3", "1E2", "1.5", "0.1", "2.50", "1e400", "-1e400", "1e-400", "12345678901234567891.5",
@@ -1488,7 +1520,7 @@ func drawScalar(t *rapid.T, label string) GoVal {
 		if g.T == "nodeNested" && rapid.Bool().Draw(t, label+"_nsigned") {
 			g.U, g.I = 0, rapid.SampledFrom(intEdges).Draw(t, label+"_ni")
 		}
-	case strings.HasPrefix(g.T, "int") || g.T == "myInt" || g.T == "struct" || g.T == "bool" || g.T == "loudInt" || g.T == "loudBool" || g.T == "duration" || g.T == "nodeInt":
+	case strings.HasPrefix(g.T, "int") || g.T == "myInt" || g.T == "struct" || g.T == "bool" || g.T == "loudInt" || g.T == "loudBool" || g.T == "duration" || g.T == "nodeInt" || g.T == "aliased":
 		if rapid.Bool().Draw(t, label+"_edge") {
 			g.I = rapid.SampledFrom(intEdges).Draw(t, label+"_ie")
 		} else {
@@ -1571,6 +1603,9 @@ func TestValueEdges(t *testing.T) {
 				valProp.One(t, ValCase{V: GoVal{T: "uintslice", L: []GoVal{{T: "uint", U: e}}}, API: api})
 				valProp.One(t, ValCase{V: GoVal{T: "map", L: []GoVal{{T: ty, U: e}}, K: []string{"x"}}, API: api})
 			}
+		}
+		for k := int64(0); k < 4; k++ {
+			valProp.One(t, ValCase{V: GoVal{T: "aliased", I: k}, API: api})
 		}
 		// prebuilt IPLD nodes holding integers at every edge, alone and nested
 		for _, e := range intEdges {
